@@ -583,6 +583,29 @@ def write_records(ck, wd, formulas):
             elif lb:
                 rec["kf"] = "writer:varname-linebreak"
             recs.append(rec)
+        # to_file on file objects whose name is not a string (anonymous and spooled temporary files)
+        import tempfile
+        for tag, mk in (("tf", lambda: tempfile.TemporaryFile("w+", encoding="utf-8", newline="")),
+                        ("sp", lambda: tempfile.SpooledTemporaryFile(mode="w+", encoding="utf-8", newline=""))):
+            if len(F) > 300:
+                continue
+            rid = "w-%s-%s" % (name, tag)
+            with mk() as fh:
+                try:
+                    F.to_file(fh, export_header=False, export_varnames=False)
+                    fh.seek(0)
+                    s3 = fh.read()
+                except Exception as e:
+                    recs.append({"id": rid, "kind": "write", "wrote": exc_name(e)[:24], "formula": form,
+                                 "options": {"header": False, "varnames": False}, "lines": [],
+                                 "reread": dict(NORESULT, outcome="not_written")})
+                    continue
+            lines, _ = lex(s3)
+            outcome, result = real_read(io.StringIO(s3))
+            rr = dict(result or NORESULT)
+            rr["outcome"] = outcome
+            recs.append({"id": rid, "kind": "write", "wrote": "ok", "formula": form,
+                         "options": {"header": False, "varnames": False}, "lines": lines, "reread": rr})
     return recs, texts
 
 
